@@ -133,6 +133,9 @@ func (s *Slice[T]) splice(start, deleteCount int, insert ...T) ([]T, error) {
 	if start < 0 || start > len(s.elements) {
 		return nil, ErrIndexOutOfBounds
 	}
+	if deleteCount < 0 {
+		return nil, ErrInvalidSliceRange
+	}
 
 	deleteCount = min(deleteCount, len(s.elements)-start)
 	removed := make([]T, deleteCount)
